@@ -437,3 +437,14 @@ def eq_constants(cond, var):
     if cond[0] == "cmp" and cond[1] == "in" and cond[2] == var and cond[3][0] in ("list", "tuple", "set"):
         return set(cond[3][1])
     return None
+
+
+def unversion(block, i: int):
+    """a parameter that the function first coerces / defaults (``if isinstance(r, list): r = tuple(r)``, ``if t is None: t = {}``)
+    appears in the normal form as the conditional value wherever it is read; rules that speak about 'the argument' read it
+    modulo that coercion"""
+    p = ("p", i)
+    vals = atoms_of(block, lambda x: x[0] == "ite" and len(x) == 4 and p in (x[2], x[3]) and contains(x[1], p))
+    if not vals:
+        return block
+    return Sigma(raw_subst={v: p for v in vals}).apply(block)
